@@ -159,3 +159,454 @@ pub fn c16(ctx: &mut Ctx) -> Search {
     }
     Ok(())
 }
+
+// ======================================================================
+// C18 -- container independence: the result of every object-API operation is a function of the input BYTES only.
+// Each case computes the same thing with stack / Vec containers and with the nightly-only heap, locked and
+// read-only-locked containers (as inputs and as outputs) and compares every variant with libsodium.
+// ======================================================================
+
+use crate::so;
+
+fn lk<const N: usize>(b: &[u8; N]) -> Result<Locked<HeapByteArray<N>>, Fail> {
+    must_ok(HeapByteArray::<N>::from_slice_into_locked(b), "HeapByteArray::from_slice_into_locked")
+}
+
+fn ro<const N: usize>(b: &[u8; N]) -> Result<LockedRO<HeapByteArray<N>>, Fail> {
+    must_ok(HeapByteArray::<N>::from_slice_into_readonly_locked(b), "HeapByteArray::from_slice_into_readonly_locked")
+}
+
+fn lkb(b: &[u8]) -> Result<Locked<HeapBytes>, Fail> {
+    must_ok(HeapBytes::from_slice_into_locked(b), "HeapBytes::from_slice_into_locked")
+}
+
+fn rob(b: &[u8]) -> Result<LockedRO<HeapBytes>, Fail> {
+    must_ok(HeapBytes::from_slice_into_readonly_locked(b), "HeapBytes::from_slice_into_readonly_locked")
+}
+
+fn clones_of_array<const N: usize>(b: &[u8]) -> Outcome {
+    let a: [u8; N] = b.try_into().unwrap();
+    let h = HeapByteArray::<N>::from(&a);
+    eq(&format!("HeapByteArray<{}>::clone", N), b, h.clone().as_slice())?;
+    // (Locked / LockedRO of a fixed-length array are not Clone: the locked clone needs a resizable container)
+    eq(&format!("Locked<HeapByteArray<{}>>", N), b, lk(&a)?.as_slice())?;
+    eq(&format!("LockedRO<HeapByteArray<{}>>", N), b, ro(&a)?.as_slice())?;
+    let u = must_ok(lk(&a)?.munlock(), "munlock")?;
+    eq(&format!("Unlocked<HeapByteArray<{}>>::clone", N), b, u.clone().as_slice())?;
+    let uro = must_ok(u.mprotect_readonly(), "mprotect_readonly")?;
+    eq(&format!("UnlockedRO<HeapByteArray<{}>>::clone", N), b, uro.clone().as_slice())
+}
+
+/// bytes: a clone of any container holds the same bytes as the original (as a clone of a Vec does), and leaves the
+/// original unchanged.
+fn clone_containers(i: &Input) -> Outcome {
+    let b = i.get("bytes");
+    eq("HeapBytes::clone", b, HeapBytes::from(b).clone().as_slice())?;
+    let l = lkb(b)?;
+    let lc = l.clone();
+    eq("Locked<HeapBytes>::clone", b, lc.as_slice())?;
+    eq("Locked<HeapBytes> after clone (original)", b, l.as_slice())?;
+    let r = rob(b)?;
+    let rc = r.clone();
+    eq("LockedRO<HeapBytes>::clone", b, rc.as_slice())?;
+    eq("LockedRO<HeapBytes>::clone().clone()", b, rc.clone().as_slice())?;
+    eq("LockedRO<HeapBytes> after clone (original)", b, r.as_slice())?;
+    // read-write locked -> read-only -> clone
+    let r2 = must_ok(lkb(b)?.mprotect_readonly(), "mprotect_readonly")?;
+    eq("Locked<HeapBytes>::mprotect_readonly().clone()", b, r2.clone().as_slice())?;
+    let u = must_ok(lkb(b)?.munlock(), "munlock")?;
+    eq("Unlocked<HeapBytes>::clone", b, u.clone().as_slice())?;
+    let uro = must_ok(u.mprotect_readonly(), "mprotect_readonly")?;
+    eq("UnlockedRO<HeapBytes>::clone", b, uro.clone().as_slice())?;
+    match b.len() {
+        16 => clones_of_array::<16>(b),
+        24 => clones_of_array::<24>(b),
+        32 => clones_of_array::<32>(b),
+        64 => clones_of_array::<64>(b),
+        _ => Ok(()),
+    }
+}
+
+/// ska, skb: crypto_box_beforenm(pkb, ska) through every PrecalcSecretKey constructor and container.
+fn precalc_containers(i: &Input) -> Outcome {
+    use dryoc::dryocbox::{Nonce, VecBox};
+    use dryoc::keypair::KeyPair;
+    use dryoc::precalc::PrecalcSecretKey;
+    let (ska, skb) = (i.arr::<32>("ska"), i.arr::<32>("skb"));
+    let (pka, pkb) = (so::scalarmult_base(&ska), so::scalarmult_base(&skb));
+    let want = match so::box_beforenm(&pkb, &ska) {
+        Some(k) => k,
+        None => panic!("{} libsodium refused an honest key pair", HARNESS),
+    };
+    let (spk, ssk) = (StackByteArray::<32>::from(pkb), StackByteArray::<32>::from(ska));
+
+    let stack = PrecalcSecretKey::precalculate(&spk, &ssk);
+    eq("PrecalcSecretKey::precalculate (stack)", &want, stack.as_slice())?;
+    let l1 = must_ok(PrecalcSecretKey::precalculate_locked(&spk, &ssk), "precalculate_locked")?;
+    eq("PrecalcSecretKey::precalculate_locked (stack keys)", &want, l1.as_slice())?;
+    let l2 = must_ok(PrecalcSecretKey::precalculate_locked(&lk(&pkb)?, &lk(&ska)?), "precalculate_locked")?;
+    eq("PrecalcSecretKey::precalculate_locked (locked keys)", &want, l2.as_slice())?;
+    let r1 = must_ok(PrecalcSecretKey::precalculate_readonly_locked(&spk, &ssk), "precalculate_readonly_locked")?;
+    eq("PrecalcSecretKey::precalculate_readonly_locked (stack keys)", &want, r1.as_slice())?;
+    let r2 = must_ok(
+        PrecalcSecretKey::precalculate_readonly_locked(&ro(&pkb)?, &ro(&ska)?),
+        "precalculate_readonly_locked",
+    )?;
+    eq("PrecalcSecretKey::precalculate_readonly_locked (read-only locked keys)", &want, r2.as_slice())?;
+
+    // the keypair wrappers
+    let kp_l = KeyPair {
+        public_key: lk(&pka)?,
+        secret_key: lk(&ska)?,
+    };
+    let k = must_ok(kp_l.precalculate_locked(&spk), "KeyPair::precalculate_locked")?;
+    eq("KeyPair<Locked, Locked>::precalculate_locked", &want, k.as_slice())?;
+    let kp_r = KeyPair {
+        public_key: ro(&pka)?,
+        secret_key: ro(&ska)?,
+    };
+    let k = must_ok(kp_r.precalculate_readonly_locked(&spk), "KeyPair::precalculate_readonly_locked")?;
+    eq("KeyPair<LockedRO, LockedRO>::precalculate_readonly_locked", &want, k.as_slice())?;
+    let k = must_ok(kp_r.precalculate_readonly_locked(&ro(&pkb)?), "KeyPair::precalculate_readonly_locked")?;
+    eq("KeyPair<LockedRO, LockedRO>::precalculate_readonly_locked (read-only locked peer key)", &want, k.as_slice())?;
+    let kp_s = KeyPair {
+        public_key: StackByteArray::<32>::from(pka),
+        secret_key: ssk.clone(),
+    };
+    eq("KeyPair<Stack, Stack>::precalculate", &want, kp_s.precalculate(&spk).as_slice())?;
+
+    // a box made with each precalculated key is libsodium's box
+    let n = [0x24u8; 24];
+    let m = b"container independence";
+    let wire = so::box_easy(m, &n, &pkb, &ska).expect("honest keys");
+    let nonce = Nonce::from(n);
+    let b1 = must_ok(VecBox::precalc_encrypt_to_vecbox(&m[..], &nonce, &r1), "precalc_encrypt (read-only locked key)")?;
+    eq("DryocBox::precalc_encrypt with a read-only locked precalculated key", &wire, &b1.to_vec())?;
+    let b2 = must_ok(VecBox::precalc_encrypt_to_vecbox(&m[..], &nonce, &l2), "precalc_encrypt (locked key)")?;
+    eq("DryocBox::precalc_encrypt with a locked precalculated key", &wire, &b2.to_vec())?;
+    let bx = must_ok(VecBox::from_bytes(&wire), "DryocBox::from_bytes")?;
+    // opened by the peer (skb, pka) with precalculated keys in each container
+    let pr = must_ok(PrecalcSecretKey::precalculate_readonly_locked(&ro(&pka)?, &ro(&skb)?), "precalculate_readonly_locked")?;
+    let p = must_ok(bx.precalc_decrypt_to_vec(&nonce, &pr), "precalc_decrypt (peer's read-only locked key)")?;
+    eq("DryocBox::precalc_decrypt with the peer's read-only locked precalculated key", m, &p)?;
+    let pl = must_ok(PrecalcSecretKey::precalculate_locked(&lk(&pka)?, &lk(&skb)?), "precalculate_locked")?;
+    let p = must_ok(bx.precalc_decrypt_to_vec(&nonce, &pl), "precalc_decrypt (peer's locked key)")?;
+    eq("DryocBox::precalc_decrypt with the peer's locked precalculated key", m, &p)
+}
+
+/// sk, peer_sk: kx sessions with stack, locked and read-only locked key pairs, into stack and locked session keys.
+fn kx_containers(i: &Input) -> Outcome {
+    use dryoc::keypair::KeyPair;
+    use dryoc::kx::Session;
+    let (sk, psk) = (i.arr::<32>("sk"), i.arr::<32>("peer_sk"));
+    let (pk, ppk) = (so::scalarmult_base(&sk), so::scalarmult_base(&psk));
+    let wc = so::kx_client(&pk, &sk, &ppk).expect("honest keys");
+    let ws = so::kx_server(&pk, &sk, &ppk).expect("honest keys");
+    macro_rules! check {
+        ($what:expr, $kp:expr, $peer:expr, $skey:ty) => {{
+            let s = must_ok(Session::<$skey>::new_client(&$kp, &$peer), concat!($what, " new_client"))?;
+            eq(concat!($what, " client rx"), &wc.0, s.rx_as_slice())?;
+            eq(concat!($what, " client tx"), &wc.1, s.tx_as_slice())?;
+            let s = must_ok(Session::<$skey>::new_server(&$kp, &$peer), concat!($what, " new_server"))?;
+            eq(concat!($what, " server rx"), &ws.0, s.rx_as_slice())?;
+            eq(concat!($what, " server tx"), &ws.1, s.tx_as_slice())?;
+            let s = must_ok($kp.kx_new_client_session::<$skey>(&$peer), concat!($what, " kx_new_client_session"))?;
+            let (rx, tx) = s.into_parts();
+            eq(concat!($what, " kx_new_client_session rx"), &wc.0, rx.as_slice())?;
+            eq(concat!($what, " kx_new_client_session tx"), &wc.1, tx.as_slice())?;
+            let s = must_ok($kp.kx_new_server_session::<$skey>(&$peer), concat!($what, " kx_new_server_session"))?;
+            let (rx, tx) = s.into_parts();
+            eq(concat!($what, " kx_new_server_session rx"), &ws.0, rx.as_slice())?;
+            eq(concat!($what, " kx_new_server_session tx"), &ws.1, tx.as_slice())?;
+        }};
+    }
+    let kp_s = KeyPair {
+        public_key: StackByteArray::<32>::from(pk),
+        secret_key: StackByteArray::<32>::from(sk),
+    };
+    let peer_s = StackByteArray::<32>::from(ppk);
+    check!("kx Session<Stack> (stack key pair)", kp_s, peer_s, StackByteArray<32>);
+    check!("kx Session<Locked> (stack key pair)", kp_s, peer_s, Locked<HeapByteArray<32>>);
+    check!("kx Session<Heap> (stack key pair)", kp_s, peer_s, HeapByteArray<32>);
+    let kp_l = KeyPair {
+        public_key: lk(&pk)?,
+        secret_key: lk(&sk)?,
+    };
+    let peer_l = lk(&ppk)?;
+    check!("kx Session<Locked> (locked key pair)", kp_l, peer_l, Locked<HeapByteArray<32>>);
+    check!("kx Session<Stack> (locked key pair)", kp_l, peer_l, StackByteArray<32>);
+    let kp_r = KeyPair {
+        public_key: ro(&pk)?,
+        secret_key: ro(&sk)?,
+    };
+    let peer_r = ro(&ppk)?;
+    check!("kx Session<Locked> (read-only locked key pair)", kp_r, peer_r, Locked<HeapByteArray<32>>);
+    check!("kx Session<Vec> (read-only locked key pair)", kp_r, peer_r, Vec<u8>);
+    Ok(())
+}
+
+/// key, ctx, id
+fn kdf_containers(i: &Input) -> Outcome {
+    use dryoc::kdf::Kdf;
+    let (key, ctxb, id) = (i.arr::<32>("key"), i.arr::<8>("ctx"), i.num("id"));
+    let want = so::kdf_derive(32, id, &ctxb, &key).expect("32-byte subkey");
+    let ks = Kdf::from_parts(StackByteArray::<32>::from(key), StackByteArray::<8>::from(ctxb));
+    let sub: StackByteArray<32> = must_ok(ks.derive_subkey(id), "Kdf<Stack>::derive_subkey")?;
+    eq("Kdf<Stack, Stack>::derive_subkey -> Stack", &want, sub.as_slice())?;
+    let sub: Locked<HeapByteArray<32>> = must_ok(ks.derive_subkey(id), "Kdf<Stack>::derive_subkey -> Locked")?;
+    eq("Kdf<Stack, Stack>::derive_subkey -> Locked", &want, sub.as_slice())?;
+    let kl = Kdf::from_parts(lk(&key)?, lk(&ctxb)?);
+    let sub: Locked<HeapByteArray<32>> = must_ok(kl.derive_subkey(id), "Kdf<Locked>::derive_subkey")?;
+    eq("Kdf<Locked, Locked>::derive_subkey -> Locked", &want, sub.as_slice())?;
+    eq("Kdf<Locked, Locked>::derive_subkey_to_vec", &want, &must_ok(kl.derive_subkey_to_vec(id), "derive_subkey_to_vec")?)?;
+    let kr = Kdf::from_parts(ro(&key)?, ro(&ctxb)?);
+    let sub: HeapByteArray<32> = must_ok(kr.derive_subkey(id), "Kdf<LockedRO>::derive_subkey")?;
+    eq("Kdf<LockedRO, LockedRO>::derive_subkey -> Heap", &want, sub.as_slice())?;
+    let (k2, c2) = kr.into_parts();
+    let kr2 = Kdf::from_parts(k2, c2);
+    let sub: StackByteArray<32> = must_ok(kr2.derive_subkey(id), "Kdf<LockedRO>::from_parts(into_parts).derive_subkey")?;
+    eq("Kdf<LockedRO>::from_parts(into_parts()).derive_subkey -> Stack", &want, sub.as_slice())
+}
+
+/// ska, skb, n, m
+fn box_containers(i: &Input) -> Outcome {
+    use dryoc::dryocbox::protected::LockedBox;
+    use dryoc::dryocbox::{DryocBox, VecBox};
+    use dryoc::keypair::KeyPair;
+    let (ska, skb, n, m) = (i.arr::<32>("ska"), i.arr::<32>("skb"), i.arr::<24>("n"), i.get("m"));
+    let (pka, pkb) = (so::scalarmult_base(&ska), so::scalarmult_base(&skb));
+    let wire = so::box_easy(m, &n, &pkb, &ska).expect("honest keys");
+
+    let b: LockedBox = must_ok(DryocBox::encrypt(m, &lk(&n)?, &lk(&pkb)?, &lk(&ska)?), "LockedBox::encrypt (locked keys)")?;
+    eq("LockedBox::encrypt (locked nonce and keys)", &wire, &b.to_vec())?;
+    let b2: VecBox = must_ok(DryocBox::encrypt(m, &ro(&n)?, &ro(&pkb)?, &ro(&ska)?), "VecBox::encrypt (read-only locked keys)")?;
+    eq("VecBox::encrypt (read-only locked nonce and keys)", &wire, &b2.to_vec())?;
+    let b3: DryocBox<HeapByteArray<32>, HeapByteArray<16>, HeapBytes> =
+        must_ok(DryocBox::encrypt(&lkb(m)?, &n, &pkb, &ska), "HeapBox::encrypt (locked message)")?;
+    eq("DryocBox<Heap..>::encrypt (locked message, array keys)", &wire, &b3.to_vec())?;
+
+    let p: LockedBytes = must_ok(b.decrypt(&ro(&n)?, &ro(&pka)?, &ro(&skb)?), "LockedBox::decrypt (read-only locked keys)")?;
+    eq("LockedBox::decrypt -> LockedBytes", m, p.as_slice())?;
+    let p: Vec<u8> = must_ok(b.decrypt(&lk(&n)?, &lk(&pka)?, &lk(&skb)?), "LockedBox::decrypt (locked keys)")?;
+    eq("LockedBox::decrypt -> Vec", m, &p)?;
+    let fromwire: DryocBox<HeapByteArray<32>, HeapByteArray<16>, HeapBytes> = must_ok(DryocBox::from_bytes(&wire), "DryocBox<Heap..>::from_bytes")?;
+    let p: LockedBytes = must_ok(fromwire.decrypt(&ro(&n)?, &ro(&pka)?, &lk(&skb)?), "DryocBox<Heap..>::from_bytes + decrypt")?;
+    eq("DryocBox<Heap..>::from_bytes(libsodium box) + decrypt -> LockedBytes", m, p.as_slice())?;
+    let tb: LockedBytes = b.to_bytes();
+    eq("LockedBox::to_bytes -> LockedBytes", &wire, tb.as_slice())?;
+
+    // sealed boxes opened with key pairs in every container
+    let sealed = so::box_seal(m, &pkb);
+    let sb: DryocBox<HeapByteArray<32>, HeapByteArray<16>, HeapBytes> = must_ok(DryocBox::from_sealed_bytes(&sealed), "DryocBox<Heap..>::from_sealed_bytes")?;
+    let kp_l = KeyPair {
+        public_key: lk(&pkb)?,
+        secret_key: lk(&skb)?,
+    };
+    let p: LockedBytes = must_ok(sb.unseal(&kp_l), "DryocBox<Heap..>::unseal (locked key pair)")?;
+    eq("DryocBox<Heap..>::unseal (locked key pair)", m, p.as_slice())?;
+    let kp_r = KeyPair {
+        public_key: ro(&pkb)?,
+        secret_key: ro(&skb)?,
+    };
+    let p: Vec<u8> = must_ok(sb.unseal(&kp_r), "DryocBox<Heap..>::unseal (read-only locked key pair)")?;
+    eq("DryocBox<Heap..>::unseal (read-only locked key pair)", m, &p)?;
+    let mine: LockedBox = must_ok(DryocBox::seal(m, &ro(&pkb)?), "LockedBox::seal")?;
+    let w = mine.to_vec();
+    match so::box_seal_open(&w, &pkb, &skb) {
+        Some(p) => eq("libsodium opens LockedBox::seal (read-only locked recipient key)", m, &p),
+        None => fail("Ok", "Err", "libsodium rejects LockedBox::seal output"),
+    }
+}
+
+/// k, n, m
+fn secretbox_containers(i: &Input) -> Outcome {
+    use dryoc::dryocsecretbox::protected::LockedBox;
+    use dryoc::dryocsecretbox::{DryocSecretBox, VecBox};
+    let (k, n, m) = (i.arr::<32>("k"), i.arr::<24>("n"), i.get("m"));
+    let wire = so::secretbox_easy(m, &n, &k);
+    let b: LockedBox = DryocSecretBox::encrypt(m, &lk(&n)?, &lk(&k)?);
+    eq("LockedBox::encrypt (locked nonce and key)", &wire, &b.to_vec())?;
+    let b2: VecBox = DryocSecretBox::encrypt(&rob(m)?, &ro(&n)?, &ro(&k)?);
+    eq("VecBox::encrypt (read-only locked message, nonce and key)", &wire, &b2.to_vec())?;
+    let kc = ro(&k)?;
+    let b3: DryocSecretBox<HeapByteArray<16>, HeapBytes> = DryocSecretBox::encrypt(&rob(m)?.clone(), &n, &kc);
+    eq("DryocSecretBox<Heap..>::encrypt (cloned read-only locked message)", &wire, &b3.to_vec())?;
+    let p: LockedBytes = must_ok(b.decrypt(&ro(&n)?, &ro(&k)?), "LockedBox::decrypt (read-only locked key)")?;
+    eq("LockedBox::decrypt -> LockedBytes", m, p.as_slice())?;
+    let fw: DryocSecretBox<HeapByteArray<16>, HeapBytes> = must_ok(DryocSecretBox::from_bytes(&wire), "DryocSecretBox<Heap..>::from_bytes")?;
+    let p: Vec<u8> = must_ok(fw.decrypt(&lk(&n)?, &kc), "DryocSecretBox<Heap..>::from_bytes + decrypt")?;
+    eq("DryocSecretBox<Heap..>::from_bytes(libsodium box) + decrypt (read-only locked key)", m, &p)?;
+    let tb: LockedBytes = b.to_bytes();
+    eq("LockedBox::to_bytes -> LockedBytes", &wire, tb.as_slice())
+}
+
+/// pw, salt (16), outlen
+fn pwhash_containers(i: &Input) -> Outcome {
+    use dryoc::pwhash::{Config, PwHash};
+    let (pw, salt, outlen) = (i.get("pw").to_vec(), i.arr::<16>("salt"), i.num("outlen") as usize);
+    let want = so::pwhash(outlen, &pw, &salt, 1, 8192, so::ALG_ARGON2ID13).expect("minimal parameters");
+    let cfg = || Config::interactive().with_opslimit(1).with_memlimit(8192).with_hash_length(outlen);
+    let mut wrong = pw.clone();
+    wrong.push(b'x');
+    macro_rules! check {
+        ($what:expr, $hash:ty, $saltv:expr) => {{
+            let h: PwHash<$hash, _> = must_ok(PwHash::hash_with_salt(&pw, $saltv, cfg()), concat!($what, " hash_with_salt"))?;
+            must_ok(h.verify(&pw), concat!($what, " verify(correct password)"))?;
+            must_err(h.verify(&wrong), concat!($what, " verify(wrong password)"))?;
+            must_ok(h.verify(&lkb(&pw)?), concat!($what, " verify(correct password in locked memory)"))?;
+            let (hash, s, _) = h.into_parts();
+            eq(concat!($what, " hash"), &want, hash.as_slice())?;
+            eq(concat!($what, " stored salt"), &salt, s.as_slice())?;
+        }};
+    }
+    check!("PwHash<Vec, Vec>", Vec<u8>, salt.to_vec());
+    check!("PwHash<Locked, Locked>", Locked<HeapBytes>, lkb(&salt)?);
+    check!("PwHash<Locked, LockedRO>", Locked<HeapBytes>, rob(&salt)?);
+    check!("PwHash<Vec, LockedRO>", Vec<u8>, rob(&salt)?);
+    check!("PwHash<Locked, Heap>", Locked<HeapBytes>, HeapBytes::from(&salt[..]));
+    check!("PwHash<Locked, cloned LockedRO>", Locked<HeapBytes>, rob(&salt)?.clone());
+    // a hash made by libsodium, stored in each container
+    let p = PwHash::from_parts(lkb(&want)?, rob(&salt)?, cfg());
+    must_ok(p.verify(&pw), "PwHash<Locked, LockedRO>::from_parts(libsodium hash).verify")?;
+    must_err(p.verify(&wrong), "PwHash<Locked, LockedRO>::from_parts(libsodium hash).verify(wrong password)")?;
+    let p = PwHash::from_parts(lkb(&want)?, lkb(&salt)?, cfg());
+    must_ok(p.verify(&pw), "PwHash<Locked, Locked>::from_parts(libsodium hash).verify")
+}
+
+/// seed, m
+fn sign_containers(i: &Input) -> Outcome {
+    use dryoc::sign::protected::{LockedSignedMessage, LockedSigningKeyPair};
+    use dryoc::sign::{SignedMessage, SigningKeyPair};
+    let (seed, m) = (i.arr::<32>("seed"), i.get("m"));
+    let (pk, sk) = so::sign_seed_keypair(&seed);
+    let want = so::sign(m, &sk);
+    let kp: LockedSigningKeyPair = SigningKeyPair::from_seed(&lk(&seed)?);
+    eq("SigningKeyPair<Locked, Locked>::from_seed public key", &pk, kp.public_key.as_slice())?;
+    eq("SigningKeyPair<Locked, Locked>::from_seed secret key", &sk, kp.secret_key.as_slice())?;
+    let kp2: LockedSigningKeyPair = SigningKeyPair::from_secret_key(lk(&sk)?);
+    eq("SigningKeyPair<Locked, Locked>::from_secret_key public key", &pk, kp2.public_key.as_slice())?;
+    let s: LockedSignedMessage = must_ok(kp.sign(lkb(m)?), "SigningKeyPair<Locked>::sign")?;
+    eq("SignedMessage<Locked, Locked>::to_vec", &want, &s.to_vec())?;
+    must_ok(s.verify(&ro(&pk)?), "SignedMessage<Locked, Locked>::verify (read-only locked public key)")?;
+    let kp_r = SigningKeyPair {
+        public_key: ro(&pk)?,
+        secret_key: ro(&sk)?,
+    };
+    let s2: SignedMessage<HeapByteArray<64>, HeapBytes> = must_ok(kp_r.sign(HeapBytes::from(m)), "SigningKeyPair<LockedRO>::sign")?;
+    eq("SigningKeyPair<LockedRO, LockedRO>::sign -> SignedMessage<Heap, Heap>", &want, &s2.to_vec())?;
+    must_ok(s2.verify(&kp_r.public_key), "SignedMessage<Heap, Heap>::verify (read-only locked public key)")?;
+    let s3 = must_ok(kp_r.sign_with_defaults(rob(m)?.clone()), "SigningKeyPair<LockedRO>::sign_with_defaults (cloned read-only locked message)")?;
+    eq("SigningKeyPair<LockedRO>::sign_with_defaults (cloned read-only locked message)", &want, &s3.to_vec())?;
+    let s4: SignedMessage<Locked<HeapByteArray<64>>, LockedRO<HeapBytes>> = must_ok(kp_r.sign(rob(m)?.clone()), "SigningKeyPair<LockedRO>::sign (cloned read-only locked message)")?;
+    eq("SignedMessage<Locked, cloned LockedRO>::to_vec", &want, &s4.to_vec())?;
+    must_ok(s4.verify(&lk(&pk)?), "SignedMessage<Locked, cloned LockedRO>::verify")?;
+    let parsed: SignedMessage<HeapByteArray<64>, HeapBytes> = must_ok(SignedMessage::from_bytes(&want), "SignedMessage<Heap, Heap>::from_bytes")?;
+    must_ok(parsed.verify(&lk(&pk)?), "SignedMessage<Heap, Heap>::from_bytes(libsodium).verify (locked public key)")?;
+    let tb: LockedBytes = parsed.to_bytes();
+    eq("SignedMessage<Heap, Heap>::to_bytes -> LockedBytes", &want, tb.as_slice())
+}
+
+/// key, m
+fn mac_containers(i: &Input) -> Outcome {
+    use dryoc::auth::Auth;
+    use dryoc::generichash::GenericHash;
+    use dryoc::onetimeauth::OnetimeAuth;
+    let (k, m) = (i.arr::<32>("key"), i.get("m").to_vec());
+    let want = so::auth(&m, &k);
+    let mac: Locked<HeapByteArray<32>> = Auth::compute(lk(&k)?, &m);
+    eq("Auth::compute (locked key) -> Locked", &want, mac.as_slice())?;
+    let mac: HeapByteArray<32> = Auth::compute(ro(&k)?, &lkb(&m)?);
+    eq("Auth::compute (read-only locked key, locked input) -> Heap", &want, mac.as_slice())?;
+    let mac: StackByteArray<32> = Auth::compute(ro(&k)?, &rob(&m)?.clone());
+    eq("Auth::compute (read-only locked key, cloned read-only locked input) -> Stack", &want, mac.as_slice())?;
+    must_ok(Auth::compute_and_verify(&ro(&want)?, lk(&k)?, &m), "Auth::compute_and_verify (read-only locked MAC)")?;
+
+    let want1 = so::onetimeauth(&m, &k);
+    let mac: Locked<HeapByteArray<16>> = OnetimeAuth::compute(lk(&k)?, &m);
+    eq("OnetimeAuth::compute (locked key) -> Locked", &want1, mac.as_slice())?;
+    let mac: StackByteArray<16> = OnetimeAuth::compute(ro(&k)?, &rob(&m)?.clone());
+    eq("OnetimeAuth::compute (read-only locked key, cloned read-only locked input) -> Stack", &want1, mac.as_slice())?;
+    must_ok(
+        OnetimeAuth::compute_and_verify(&ro(&want1)?, ro(&k)?, &m),
+        "OnetimeAuth::compute_and_verify (read-only locked MAC)",
+    )?;
+
+    let want2 = so::generichash(32, &m, &k).expect("generichash");
+    let h: Locked<HeapByteArray<32>> = must_ok(GenericHash::<32, 32>::hash(&m, Some(&lk(&k)?)), "GenericHash::hash (locked key)")?;
+    eq("GenericHash::hash (locked key) -> Locked", &want2, h.as_slice())?;
+    let h: HeapByteArray<32> =
+        must_ok(GenericHash::<32, 32>::hash(&rob(&m)?.clone(), Some(&ro(&k)?)), "GenericHash::hash (read-only locked key)")?;
+    eq("GenericHash::hash (read-only locked key, cloned read-only locked input) -> Heap", &want2, h.as_slice())
+}
+
+/// k, m: a stream pushed with a key in each container is pulled by libsodium, and vice versa.
+fn stream_containers(i: &Input) -> Outcome {
+    use dryoc::dryocstream::{DryocStream, Tag};
+    let (k, m) = (i.arr::<32>("k"), i.get("m"));
+    // push side: header drawn by dryoc into each header container
+    let (mut ps, header): (_, Locked<HeapByteArray<24>>) = DryocStream::init_push(&ro(&k)?);
+    let c: LockedBytes = must_ok(ps.push(&rob(m)?.clone(), None, Tag::MESSAGE), "DryocStream::push (cloned read-only locked message) -> LockedBytes")?;
+    let hdr: [u8; 24] = header.as_slice().try_into().unwrap();
+    let mut sl = so::stream_init_pull(&hdr, &k);
+    match so::stream_pull(&mut sl, c.as_slice(), None) {
+        Some((p, _)) => eq("libsodium pull of DryocStream::push (read-only locked key, locked header, cloned read-only locked message)", m, &p)?,
+        None => return fail("Ok", "Err", "libsodium rejects DryocStream::push output made with a read-only locked key"),
+    }
+    // pull side: libsodium pushes, dryoc pulls with key and header in protected containers
+    let header2 = [0x42u8; 24];
+    let mut sp = so::stream_init_pull(&header2, &k);
+    let c2 = so::stream_push(&mut sp, m, None, 0);
+    let mut pull = DryocStream::init_pull(&ro(&k)?, &ro(&header2)?);
+    let (p, _): (LockedBytes, Tag) = must_ok(pull.pull(&lkb(&c2)?, None), "DryocStream::pull (locked ciphertext) -> LockedBytes")?;
+    eq("DryocStream::pull with read-only locked key and header", m, p.as_slice())?;
+    let mut pull = DryocStream::init_pull(&lk(&k)?, &lk(&header2)?);
+    let (p, _) = must_ok(pull.pull_to_vec(&rob(&c2)?.clone(), None), "DryocStream::pull_to_vec (cloned read-only locked ciphertext)")?;
+    eq("DryocStream::pull with locked key and header, cloned read-only locked ciphertext", m, &p)
+}
+
+pub const C18: Registry = &[
+    ("clone_containers", clone_containers),
+    ("precalc_containers", precalc_containers),
+    ("kx_containers", kx_containers),
+    ("kdf_containers", kdf_containers),
+    ("box_containers", box_containers),
+    ("secretbox_containers", secretbox_containers),
+    ("pwhash_containers", pwhash_containers),
+    ("sign_containers", sign_containers),
+    ("mac_containers", mac_containers),
+    ("stream_containers", stream_containers),
+];
+
+pub fn c18(ctx: &mut Ctx) -> Search {
+    let t = ctx.thorough;
+    let lens: Vec<usize> = if t {
+        (0..=40).chain([63, 64, 65, 100, 255, 256, 257, 1000, 4095, 4096, 4097, 8192, 10000]).collect()
+    } else {
+        vec![0, 1, 15, 16, 17, 24, 32, 33, 64, 100, 4096, 4097]
+    };
+    for len in &lens {
+        let b = ctx.rng.bytes(*len);
+        ctx.run("clone_containers", Input::new().b("bytes", &b))?;
+    }
+    let rounds = if t { 24 } else { 4 };
+    for r in 0..rounds {
+        let (ska, skb) = (ctx.rng.arr::<32>(), ctx.rng.arr::<32>());
+        ctx.run("precalc_containers", Input::new().b("ska", &ska).b("skb", &skb))?;
+        ctx.run("kx_containers", Input::new().b("sk", &ska).b("peer_sk", &skb))?;
+        let (key, c) = (ctx.rng.arr::<32>(), ctx.rng.arr::<8>());
+        let id = [0u64, 1, 1 << 32, u64::MAX][r % 4];
+        ctx.run("kdf_containers", Input::new().b("key", &key).b("ctx", &c).u("id", id))?;
+        let mlen = [0usize, 1, 33, 257, 4097, 16, 64, 1000][r % 8];
+        let (n, m) = (ctx.rng.arr::<24>(), ctx.rng.bytes(mlen));
+        ctx.run("box_containers", Input::new().b("ska", &ska).b("skb", &skb).b("n", &n).b("m", &m))?;
+        ctx.run("secretbox_containers", Input::new().b("k", &key).b("n", &n).b("m", &m))?;
+        ctx.run("sign_containers", Input::new().b("seed", &key).b("m", &m))?;
+        ctx.run("mac_containers", Input::new().b("key", &key).b("m", &m))?;
+        ctx.run("stream_containers", Input::new().b("k", &key).b("m", &m))?;
+        let pw = ctx.rng.bytes(1 + r % 9);
+        let salt = ctx.rng.arr::<16>();
+        let outlen = [32u64, 16, 64, 33][r % 4];
+        ctx.run("pwhash_containers", Input::new().b("pw", &pw).b("salt", &salt).u("outlen", outlen))?;
+    }
+    Ok(())
+}
